@@ -18,6 +18,7 @@
 package parser
 
 import (
+	"bytes"
 	"encoding/json"
 
 	"github.com/golang/protobuf/ptypes/any"
@@ -84,7 +85,7 @@ func ConvertToProto(intreeLog *undo.BranchUndoLog) *BranchUndoLog {
 				}
 
 				for _, col := range row.Columns {
-					anyValue, err := convertInterfaceToAny(col.GetActualValue())
+					anyValue, err := convertInterfaceToAny(col.JSONValue())
 					if err != nil {
 						continue
 					}
@@ -116,7 +117,7 @@ func ConvertToProto(intreeLog *undo.BranchUndoLog) *BranchUndoLog {
 				}
 
 				for _, col := range row.Columns {
-					anyValue, err := convertInterfaceToAny(col.Value)
+					anyValue, err := convertInterfaceToAny(col.JSONValue())
 					if err != nil {
 						continue
 					}
@@ -166,7 +167,7 @@ func ConvertToIntree(protoLog *BranchUndoLog) *undo.BranchUndoLog {
 				}
 
 				for _, pbCol := range pbRow.Columns {
-					anyValue, err := convertAnyToInterface(pbCol.Value)
+					anyValue, err := convertAnyToColumnValue(pbCol.Value, types.JDBCType(pbCol.ColumnType))
 					if err != nil {
 						continue
 					}
@@ -198,7 +199,7 @@ func ConvertToIntree(protoLog *BranchUndoLog) *undo.BranchUndoLog {
 				}
 
 				for _, pbCol := range pbRow.Columns {
-					anyValue, err := convertAnyToInterface(pbCol.Value)
+					anyValue, err := convertAnyToColumnValue(pbCol.Value, types.JDBCType(pbCol.ColumnType))
 					if err != nil {
 						continue
 					}
@@ -235,6 +236,22 @@ func convertAnyToInterface(anyValue *any.Any) (interface{}, error) {
 		return value, uErr
 	}
 	return value, nil
+}
+
+// convertAnyToColumnValue decodes a column value; the generic JSON value
+// carries no Go type, which is restored from the column's JDBC type.
+func convertAnyToColumnValue(anyValue *any.Any, columnType types.JDBCType) (interface{}, error) {
+	bytesValue := &wrappers.BytesValue{}
+	if err := anypb.UnmarshalTo(anyValue, bytesValue, proto.UnmarshalOptions{}); err != nil {
+		return nil, err
+	}
+	var value interface{}
+	decoder := json.NewDecoder(bytes.NewReader(bytesValue.Value))
+	decoder.UseNumber()
+	if err := decoder.Decode(&value); err != nil {
+		return nil, err
+	}
+	return types.ConvertJSONValue(columnType, value)
 }
 
 func convertInterfaceToAny(v interface{}) (*any.Any, error) {
